@@ -314,13 +314,13 @@ class ApiGen:
             if not live:
                 return
             cl = rng.choice(live)
-            o = rng.choice(["cancel", "cancel", "drop", "ack", "ack-multiple", "nack", "nack-multiple", "reject"])
-            if o in ("cancel", "drop"):
+            o = rng.choice(["cancel", "cancel", "drop", "drop-panic", "ack", "ack-multiple", "nack", "nack-multiple", "reject"])
+            if o in ("cancel", "drop", "drop-panic"):
                 if not self.consumers[cl][2] and not self.dead:
                     self.rep_frame(ch, amqp.basic_cancel_ok(ch, self.consumers[cl][1]), [X(self.consumers[cl][1])])
                 self.op("cons %s %s" % (cl, o))
                 self.consumers[cl][2] = True
-                if o == "drop":
+                if o in ("drop", "drop-panic"):
                     del self.consumers[cl]
             else:
                 self.nd += 1
